@@ -7,17 +7,18 @@ import (
 	"strings"
 
 	sdkmath "cosmossdk.io/math"
+	abci "github.com/cometbft/cometbft/abci/types"
 	tmproto "github.com/cometbft/cometbft/proto/tendermint/types"
 	sdk "github.com/cosmos/cosmos-sdk/types"
-	abci "github.com/cometbft/cometbft/abci/types"
 
 	feemarkettypes "github.com/haqq-network/haqq/x/feemarket/types"
 )
 
 // C17 — base fee. Ops (shared with lean/HaqqModel/Driver/C17.lean):
-//   bf noBaseFee enableHeight baseFee elasticity denominator minGasPriceRaw multRaw height maxGas g
-//   eb gasWanted gasUsed multRaw
-//   pv <the seven params>
+//
+//	bf noBaseFee enableHeight baseFee elasticity denominator minGasPriceRaw multRaw height maxGas g
+//	eb gasWanted gasUsed multRaw
+//	pv <the seven params>
 func init() {
 	Register(&Property{
 		ID:   "C17",
